@@ -61,3 +61,8 @@ package keeper
 //@ rowinv C08/ammPoolKey table amm:types.KeyPrefix/types.PoolKey row types.Pool : row.PoolId == key1
 //@ func (Keeper).SetPool
 //@ ensures C08/stored-under-its-id: true
+
+// Exit estimation (query path used for position health): reads pools, prices and snapshots only.
+//@ func (Keeper).ExitPoolEst
+//@ modifies nothing
+//@ frame-only
